@@ -599,7 +599,7 @@ def run(repo, root, log, tag=None):
         elif s["found"] is None:
             res["unproved_no_difference"] += [f for f in blame if f not in res["unproved_no_difference"]]
         else:
-            res["broken"].append({"lemma": lem["name"], "functions": blame, "input": s["found"], "src_value": s["src_value"],
+            res["broken"].append({"lemma": lem["name"], "file": lem["file"], "functions": blame, "input": s["found"], "src_value": s["src_value"],
                                   "model_value": s["model_value"], "statement": lem["stmt"], "proof_error": err[:300]})
         for f in blame:
             use_pinned[f] = "tie lemma %s not proved for the current translation" % lem["name"]
